@@ -65,10 +65,13 @@ def stateSig (r : Reader) : String :=
 /-- One operation on the hand-written model; the same operation is run on the model *generated from
 the Rust source* (`TieReader.genRun`), and a difference in result or state is made visible in the
 observation (it would also contradict theorem `TieReader.op_tied`). -/
-def runROp (r : Reader) : Option Reader.Op → String × Reader
+def runROp (gen : Bool) (r : Reader) : Option Reader.Op → String × Reader
   | none => ("bad-op", r)
   | some op =>
     let (res, r') := op.run r
+    -- `nogen=1` (set by `./check` after a run with the generated code failed, e.g. ran out of memory on the
+    -- translation of a changed source): the hand-written model alone
+    if !gen then (showRes op res, r') else
     let (gres, gr') := TieReader.genRun r op
     let out := showRes op res
     if showRes op gres == out && stateSig gr' == stateSig r' then (out, r')
@@ -91,7 +94,7 @@ def runReaderCase (line : String) : String × String :=
   let ops := parseROps (field fs "o")
   let (outs, _, tags) := ops.foldl (fun (acc : List String × Reader × RTags) op =>
       let (outs, r, t) := acc
-      let (res, r') := runROp r op
+      let (res, r') := runROp (field fs "nogen" != "1") r op
       let t := { t with
         realign := if r'.posOfBuf != r.posOfBuf then t.realign + 1 else t.realign,
         shrink := if r'.buf.length < r.buf.length then t.shrink + 1 else t.shrink,
